@@ -24,6 +24,7 @@ EDGE_DATES = _edge_dates()
 
 dates = st.one_of(
     st.dates(min_value=D.date(1990, 1, 1), max_value=D.date(2040, 12, 31)),
+    st.dates(min_value=D.date(1930, 1, 1), max_value=D.date(1969, 12, 31)),      # before the Unix epoch too
     st.sampled_from(EDGE_DATES),
     # the days of one week, so that every weekday alignment is common
     st.integers(0, 6).map(lambda k: D.date(2021, 3, 1) + D.timedelta(days=k)),
